@@ -181,6 +181,28 @@ pub mod collections {
         pub fn keys(&self) -> impl Iterator<Item = &K> {
             self.iter().map(|(k, _)| k)
         }
+        pub fn first_key_value(&self) -> Option<(&K, &V)> {
+            if self.len == 0 {
+                None
+            } else {
+                self.slots[0].as_ref().map(|(k, v)| (k, v))
+            }
+        }
+        pub fn last_key_value(&self) -> Option<(&K, &V)> {
+            if self.len == 0 {
+                None
+            } else {
+                self.slots[self.len - 1].as_ref().map(|(k, v)| (k, v))
+            }
+        }
+        pub fn clear(&mut self) {
+            let mut i = 0;
+            while i < CAP {
+                self.slots[i] = None;
+                i += 1;
+            }
+            self.len = 0;
+        }
         pub fn range(&self, r: std::ops::Range<K>) -> impl Iterator<Item = (&K, &V)> {
             // std: "range start is greater than range end in BTreeMap"
             assert!(r.start <= r.end, "range start is greater than range end in BTreeMap");
@@ -233,6 +255,23 @@ pub mod collections {
         map: &'a mut BTreeMap<K, V>,
         key: K,
     }
+    impl<'a, K: Ord + Copy, V> OccupiedEntry<'a, K, V> {
+        pub fn get(&self) -> &V {
+            &self.map.slots[self.idx].as_ref().unwrap().1
+        }
+        pub fn get_mut(&mut self) -> &mut V {
+            &mut self.map.slots[self.idx].as_mut().unwrap().1
+        }
+        pub fn into_mut(self) -> &'a mut V {
+            &mut self.map.slots[self.idx].as_mut().unwrap().1
+        }
+        pub fn insert(&mut self, v: V) -> V {
+            std::mem::replace(&mut self.map.slots[self.idx].as_mut().unwrap().1, v)
+        }
+        pub fn remove(self) -> V {
+            self.map.remove_at(self.idx).unwrap().1
+        }
+    }
     impl<'a, K: Ord + Copy, V> VacantEntry<'a, K, V> {
         pub fn insert(self, v: V) -> &'a mut V {
             let i = self.map.insert_new(self.key, v);
@@ -240,6 +279,21 @@ pub mod collections {
         }
     }
     impl<'a, K: Ord + Copy, V> Entry<'a, K, V> {
+        pub fn or_insert(self, v: V) -> &'a mut V {
+            self.or_insert_with(|| v)
+        }
+        pub fn or_default(self) -> &'a mut V
+        where
+            V: Default,
+        {
+            self.or_insert_with(V::default)
+        }
+        pub fn key(&self) -> &K {
+            match self {
+                Entry::Occupied(o) => &o.map.slots[o.idx].as_ref().unwrap().0,
+                Entry::Vacant(v) => &v.key,
+            }
+        }
         pub fn or_insert_with<F: FnOnce() -> V>(self, f: F) -> &'a mut V {
             match self {
                 Entry::Occupied(o) => &mut o.map.slots[o.idx].as_mut().unwrap().1,
